@@ -134,6 +134,16 @@ def rule_slab_guards(ctx):
         raise Inconclusive("MatrixSlab::alloc: expected one slice and one usize parameter")
     SL, NL = slice_args[0], usize_args[0]
 
+    # the layout the slab itself is allocated with: Layout::new::<MatcherData>() or a named constant holding it
+    slab_layout_const = None
+    nf0 = get_fn(facts, M, "matrix::MatrixSlab::new")
+    for bi0, t0 in nf0.calls(lambda t: callee(t) in ("std::alloc::alloc", "std::alloc::alloc_zeroed")):
+        l0 = peel(nf0.expr_of_operand(t0["args"][0]))
+        while l0[0] in ("ref", "deref"):
+            l0 = peel(l0[1])
+        if l0[0] in ("const", "constx"):
+            slab_layout_const = str(l0[2] if l0[0] == "const" else l0[1])
+
     def base_arg(x):
         x = peel(x)
         while x[0] in ("ref", "deref", "cast"):
@@ -147,6 +157,12 @@ def rule_slab_guards(ctx):
         if x[0] == "arg" and x[1] == NL:
             return "N"
         if x[0] == "call" and str(x[1]).endswith("Layout::size"):
+            # size of the slab's own layout (a named constant the slab is allocated with) vs size of the carved layout
+            recv = peel(x[2][0])
+            while recv[0] in ("ref", "deref"):
+                recv = peel(recv[1])
+            if recv[0] in ("const", "constx") and slab_layout_const and slab_layout_const in [str(y) for y in recv[1:3]]:
+                return "SLAB_SIZE"
             return "LAYOUT_SIZE"
         if x[0] == "call" and str(x[1]).endswith("size_of"):
             return "SLAB_SIZE" if "MatcherData" in str(fn.blocks[x[4][0]]["term"].get("fn_args", "")) else "?size_of"
@@ -196,8 +212,21 @@ def rule_slab_guards(ctx):
     df = get_fn(facts, M, "<matrix::MatrixSlab as std::ops::Drop>::drop")
     la = [t.get("fn_args") for bi, t in nf.calls(lambda t: callee(t).endswith("Layout::new"))]
     ld = [t.get("fn_args") for bi, t in df.calls(lambda t: callee(t).endswith("Layout::new"))]
+
+    def layout_arg(f_, names, pos):
+        out_ = []
+        for b_, t_ in f_.calls(lambda t: callee(t) in names):
+            l_ = peel(f_.expr_of_operand(t_["args"][pos]))
+            while l_[0] in ("ref", "deref"):
+                l_ = peel(l_[1])
+            out_.append(str(l_[2] if l_[0] == "const" else l_[1]) if l_[0] in ("const", "constx") else None)
+        return out_
+    ca_ = layout_arg(nf, ("std::alloc::alloc", "std::alloc::alloc_zeroed"), 0)
+    cd_ = layout_arg(df, ("std::alloc::dealloc",), 1)
     if la and la == ld and "MatcherData" in la[0]:
         ctx.ok(site(nf, 0), "slab allocated and freed with Layout::new::<MatcherData>()")
+    elif ca_ and cd_ and ca_[0] is not None and set(ca_) == set(cd_) and len(set(ca_)) == 1:
+        ctx.ok(site(nf, 0), "slab allocated and freed with the same named layout constant %s" % ca_[0])
     else:
         ctx.violation("matrix::MatrixSlab|layout-pair|1", site(df, 0), "slab allocated with %s but freed with %s" % (la, ld))
     if consts["matrix::MAX_NEEDLE_LEN"] <= 65536 and consts["matrix::MAX_HAYSTACK_LEN"] <= 65536:
